@@ -162,7 +162,11 @@ class Interp:
             else:
                 for el, it in zip(target.elts, items):
                     self.assign(el, it, st, node)
-        elif isinstance(target, (ast.Subscript, ast.Attribute)):
+        elif isinstance(target, ast.Subscript):
+            base = self.ev.eval(target.value, st)
+            idx = self.ev.eval(target, st) if isinstance(base, SView) and isinstance(target.slice, ast.Slice) else unparse(target.slice)
+            st.stores.append((base, idx, value, node))
+        elif isinstance(target, ast.Attribute):
             st.setattrs.append((unparse(target), "=", value))
         else:
             raise Unsupported(f"{self.func.qual}:{getattr(node, 'lineno', 0)}: assignment target {unparse(target)}")
